@@ -2411,4 +2411,179 @@ theorem reimport_keeps_the_bridge (s : St) :
     (reimport s).usage = (fun _ => none) ∧ (reimport s).archive = [] :=
   ⟨rfl, rfl, rfl, rfl, rfl, rfl, rfl, rfl, rfl, rfl, rfl, rfl, rfl⟩
 
+/-! ### the contract registry: transfers are refunded / burned in the denom that was escrowed -/
+
+/-- what governance is trusted with (`SetERC20ToDenomProposal` writes unconditionally): it binds a denom to a contract
+that serves no denom yet, or re-states the contract's own denom; it does not hand a contract that serves one denom to
+another denom.  Token admins (`MsgSetERC20ToTokenDenom`, wasm `set_erc20_to_denom`) are not trusted with anything:
+their operations are unconstrained. -/
+def RegOp.sane (r : Registry) : RegOp → Prop
+  | .admin _ _ _ => True
+  | .gov d c => r.den c = none ∨ r.den c = some d
+
+/-- every governance binding of the history is `sane` in the state it is applied to -/
+def SaneRun : Registry → List RegOp → Prop
+  | _, [] => True
+  | r, op :: ops => op.sane r ∧ SaneRun (r.apply op) ops
+
+/-- the contract a denom is currently bound to resolves back to that denom -/
+def Registry.Consistent (r : Registry) : Prop := ∀ d c, r.erc d = some c → r.den c = some d
+
+theorem Registry.set_den_keeps (r : Registry) (d c c' d' : Nat) (h : r.den c' = some d')
+    (hs : r.den c = none ∨ r.den c = some d) : (r.set d c).den c' = some d' := by
+  unfold Registry.set updO
+  simp only
+  split
+  · next heq =>
+    subst heq
+    rcases hs with hs | hs
+    · rw [hs] at h; cases h
+    · rw [hs] at h; exact h
+  · exact h
+
+/-- **admin_bind_keeps_reverse.** Whoever sends `MsgSetERC20ToTokenDenom` (or the wasm binding), with whatever denom
+and contract, accepted or not: no reverse entry is removed or re-pointed. -/
+theorem admin_bind_keeps_reverse (r : Registry) (a : Bool) (d c c' d' : Nat) (h : r.den c' = some d') :
+    (r.bindAdmin a d c).1.den c' = some d' := by
+  unfold Registry.bindAdmin
+  split
+  · exact h
+  · split
+    · exact h
+    · next hn =>
+      refine Registry.set_den_keeps r d c c' d' h (Or.inl ?_)
+      cases hc : r.den c with
+      | none => rfl
+      | some x => simp [hc] at hn
+
+/-- **admin_bind_refused_for_bound_contract.** A contract that has (ever had) a denom is never given to a denom
+through the admin path — neither to another denom nor, again, to its own. -/
+theorem admin_bind_refused_for_bound_contract (r : Registry) (a : Bool) (d c : Nat) (h : (r.den c).isSome) :
+    r.bindAdmin a d c = (r, .rejected) := by
+  unfold Registry.bindAdmin
+  split
+  · rfl
+  · simp
+
+/-- **admin_bind_refused_for_non_admin.** -/
+theorem admin_bind_refused_for_non_admin (r : Registry) (d c : Nat) : r.bindAdmin false d c = (r, .rejected) := by
+  simp [Registry.bindAdmin]
+
+theorem Registry.den_stable_step (r : Registry) (op : RegOp) (hs : op.sane r) (c d : Nat) (h : r.den c = some d) :
+    (r.apply op).den c = some d := by
+  cases op with
+  | admin a d' c' => exact admin_bind_keeps_reverse r a d' c' c d h
+  | gov d' c' => exact Registry.set_den_keeps r d' c' c d h hs
+
+/-- **reverse_entries_are_forever.** Over any history of bindings (any admin operations, governance as trusted
+above), a reverse entry, once written, is never removed and never points to another denom. -/
+theorem reverse_entries_are_forever (ops : List RegOp) : ∀ (r : Registry), SaneRun r ops → ∀ c d,
+    r.den c = some d → (r.run ops).den c = some d := by
+  induction ops with
+  | nil => intro r _ c d h; exact h
+  | cons op ops ih =>
+    intro r hs c d h
+    exact ih (r.apply op) hs.2 c d (Registry.den_stable_step r op hs.1 c d h)
+
+theorem Registry.set_consistent (r : Registry) (d c : Nat) (hc : r.Consistent)
+    (hs : r.den c = none ∨ r.den c = some d) : (r.set d c).Consistent := by
+  intro d' c' h
+  by_cases hd : d' = d
+  · subst hd
+    have : c' = c := by
+      unfold Registry.set updO at h
+      simp at h
+      exact h.symm
+    subst this
+    unfold Registry.set updO
+    simp
+  · have h' : r.erc d' = some c' := by
+      unfold Registry.set updO at h
+      simpa [hd] using h
+    exact Registry.set_den_keeps r d c c' d' (hc d' c' h') hs
+
+theorem Registry.consistent_step (r : Registry) (op : RegOp) (hs : op.sane r) (hc : r.Consistent) :
+    (r.apply op).Consistent := by
+  cases op with
+  | admin a d c =>
+    show (r.bindAdmin a d c).1.Consistent
+    unfold Registry.bindAdmin
+    split
+    · exact hc
+    · split
+      · exact hc
+      · next hn =>
+        refine Registry.set_consistent r d c hc (Or.inl ?_)
+        cases h : r.den c with
+        | none => rfl
+        | some x => simp [h] at hn
+  | gov d c => exact Registry.set_consistent r d c hc hs
+
+theorem Registry.consistent_run (ops : List RegOp) : ∀ (r : Registry), SaneRun r ops → r.Consistent →
+    (r.run ops).Consistent := by
+  induction ops with
+  | nil => intro r _ h; exact h
+  | cons op ops ih => intro r hs h; exact ih (r.apply op) hs.2 (Registry.consistent_step r op hs.1 h)
+
+theorem saneRun_append (a b : List RegOp) : ∀ (r : Registry), SaneRun r (a ++ b) → SaneRun r a ∧ SaneRun (r.run a) b := by
+  induction a with
+  | nil => intro r h; exact ⟨trivial, h⟩
+  | cons op a ih => intro r h; exact ⟨⟨h.1, (ih (r.apply op) h.2).1⟩, (ih (r.apply op) h.2).2⟩
+
+theorem Registry.run_append (r : Registry) (a b : List RegOp) : r.run (a ++ b) = (r.run a).run b := by
+  unfold Registry.run; rw [List.foldl_append]
+
+/-- **paid_in_the_escrowed_denom** (C01 "refunded in full to its sender", "burned because its batch was attested as
+executed", escrow per token).  A transfer of denom `d` accepted after the history `before` is recorded under the
+contract `c = erc d` of that moment; at every later moment — whatever bindings `after` the token admins and governance
+make in between, in particular when `d` moves on to another contract while the transfer is pending — the refund of the
+transfer and the burn of its batch resolve `c` to `d` again: they are paid in the denom that was escrowed, never in
+another one, and never fail with "denom not found". -/
+theorem paid_in_the_escrowed_denom (before after : List RegOp) (d c : Nat)
+    (hs : SaneRun Registry.init (before ++ after))
+    (hrec : (Registry.init.run before).recordedUnder d = some c) :
+    (Registry.init.run (before ++ after)).paidIn c = some d := by
+  have hsp := saneRun_append before after Registry.init hs
+  have hcons : (Registry.init.run before).Consistent :=
+    Registry.consistent_run before Registry.init hsp.1 (by intro d c h; cases h)
+  rw [Registry.run_append]
+  exact reverse_entries_are_forever after _ hsp.2 c d (hcons d c hrec)
+
+/-- **contract_serves_one_denom.** Two transfers recorded under the same contract at any two moments of a history were
+escrowed in the same denom: the pool key / batch key `contract` never mixes coins of two denoms. -/
+theorem contract_serves_one_denom (h1 h2 h3 : List RegOp) (d d' c : Nat)
+    (hs : SaneRun Registry.init (h1 ++ h2 ++ h3))
+    (hrec : (Registry.init.run h1).recordedUnder d = some c)
+    (hrec' : (Registry.init.run (h1 ++ h2)).recordedUnder d' = some c) : d = d' := by
+  have hs12 := (saneRun_append (h1 ++ h2) h3 Registry.init hs).1
+  have a := paid_in_the_escrowed_denom h1 h2 d c hs12 hrec
+  have b := paid_in_the_escrowed_denom (h1 ++ h2) [] d' c (by simpa using hs12) (by simpa using hrec')
+  simp only [List.append_nil] at b
+  rw [a] at b
+  cases b
+  rfl
+
+/-- non-vacuity: denom 1 is bound to contract 1 by its admin, moves on to contract 2, the admin of denom 2 asks for the
+contract 1 that was left behind (refused), a stranger asks for a fresh contract (refused), governance binds denom 2 to
+a fresh contract: contract 1 still resolves to denom 1 -/
+def demoBindings : List RegOp := [.admin true 1 1, .admin true 1 2, .admin true 2 1, .admin false 2 3, .gov 2 4]
+
+example : SaneRun Registry.init demoBindings := by
+  simp [demoBindings, SaneRun, RegOp.sane, Registry.apply, Registry.bindAdmin, Registry.set,
+    Registry.init, updO]
+
+example : (Registry.init.run (demoBindings.take 1)).recordedUnder 1 = some 1 ∧
+    (Registry.init.run demoBindings).recordedUnder 1 = some 2 ∧
+    (Registry.init.run demoBindings).paidIn 1 = some 1 ∧ (Registry.init.run demoBindings).paidIn 2 = some 1 ∧
+    (Registry.init.run demoBindings).recordedUnder 2 = some 4 ∧ (Registry.init.run demoBindings).paidIn 3 = none ∧
+    ((Registry.init.run (demoBindings.take 2)).bindAdmin true 2 1).2 = .rejected := by decide
+
+/-- what the trust in governance is needed for: a proposal that hands contract 1 (serving denom 1) to denom 2 makes a
+transfer of denom 1 pending under contract 1 payable in denom 2 -/
+example : ¬ SaneRun Registry.init [.admin true 1 1, .gov 2 1] ∧
+    (Registry.init.run [.admin true 1 1, .gov 2 1]).paidIn 1 = some 2 := by
+  constructor
+  · simp [SaneRun, RegOp.sane, Registry.apply, Registry.bindAdmin, Registry.set, Registry.init, updO]
+  · decide
+
 end Paloma.Bridge
